@@ -1499,6 +1499,21 @@ where
          old="""                pool_config.hash_value().hash(&mut hasher);""", new="""                let mut shared_config = pool_config.clone();
                 shared_config.users.clear();
                 shared_config.hash_value().hash(&mut hasher);"""),
+    dict(id="c11-guarded-read-goes-round", prop="C11", file="src/messages.rs", expect="C11-R16",
+         what="parse_params reads the next byte only if one remains and goes round otherwise (never-ending loop on an unterminated string)",
+         old="""            tmp.push(c);
+            c = bytes.get_u8();""", new="""            tmp.push(c);
+            if bytes.has_remaining() {
+                c = bytes.get_u8();
+            }"""),
+    dict(id="c07-admin-ban-skips-banned-addresses", prop="C07", file="src/admin.rs", expect="C07-R5",
+         what="admin BAN skips an address that is already on the ban list (D88 again)",
+         old="""            pool.ban(&address, BanReason::AdminBan(duration_seconds), None);
+            res.put(data_row(&vec![""", new="""            if pool.is_banned(&address) {
+                continue;
+            }
+            pool.ban(&address, BanReason::AdminBan(duration_seconds), None);
+            res.put(data_row(&vec!["""),
     # ------------------------------------------------------------------ C11
     dict(id="c11-inline-client", prop="C11", file="src/main.rs", expect="C11-R1",
          what="client handled inline in the accept loop instead of its own task",
